@@ -23,7 +23,7 @@ import (
 func TestMain(m *testing.M) {
 	kit.Register("history", historyOracle)
 	kit.Describe("case = (configuration, pool of 2..6 documents, operation list over one long-lived Markdown value: cI Convert, fI / gI Convert into a destination that fails at once / after 40 bytes, pI Parse+Render keeping the tree, rI render the kept tree again, xI render a tree parsed by another fresh instance, kI Parse with a caller-supplied fresh parser.Context, bI Convert on a fresh instance); oracle: every output for document i equals the canonical output computed by a brand-new instance before the history starts; non-trivial = >= 3 operations including a re-render of a tree that contains an extension node, or two different documents of a definer/user pair (references, heading ids, footnotes, quotes, tables, fences); distinct by hash of the case",
-		"instances are created fresh for every case")
+		"instances are created fresh for every case", "the canonical outputs are computed from private copies of the documents; in a quarter of the cases all one-shot conversions read their document from one recycled backing array")
 	kit.Main(m, "C06")
 }
 
@@ -35,13 +35,35 @@ func historyOracle(c *kit.Case) error {
 	for i := range docs {
 		docs[i] = c.Bytes["d"+strconv.Itoa(i)]
 		var b bytes.Buffer
-		if err := cfg.Fresh().Convert(docs[i], &b); err != nil {
+		// the canonical output comes from a private copy of the source: whatever a conversion does to the
+		// slice it is given must not be able to make the canonical run and the history agree by accident
+		if err := cfg.Fresh().Convert(append([]byte(nil), docs[i]...), &b); err != nil {
 			return kit.Violf("convert-error", "%v", err)
 		}
 		canon[i] = b.Bytes()
 	}
 	a := cfg.Fresh()
 	trees := map[int]ast.Node{}
+	// recycle: one-shot conversions read their document from one shared backing array that is overwritten
+	// for every call (bytes.Buffer.Reset, a pool of request buffers); documents whose tree is kept for
+	// re-rendering stay in their own slices, as the API requires
+	var shared []byte
+	if c.Ints["recycle"] != 0 {
+		n := 0
+		for _, d := range docs {
+			if len(d) > n {
+				n = len(d)
+			}
+		}
+		shared = make([]byte, n+8)
+	}
+	oneShot := func(i int) []byte {
+		if shared == nil {
+			return docs[i]
+		}
+		copy(shared, docs[i])
+		return shared[:len(docs[i])]
+	}
 	check := func(step int, op string, i int, got []byte) error {
 		if !bytes.Equal(got, canon[i]) {
 			return kit.Violf("history-dependent", "step %d (%s) on document %d %q:\n got       %q\n canonical %q", step, op, i, docs[i], got, canon[i])
@@ -57,7 +79,7 @@ func historyOracle(c *kit.Case) error {
 		var err error
 		switch op[0] {
 		case 'c':
-			err = a.Convert(docs[i], &b)
+			err = a.Convert(oneShot(i), &b)
 		case 'p':
 			t := a.Parser().Parse(text.NewReader(docs[i]))
 			trees[i] = t
@@ -73,8 +95,9 @@ func historyOracle(c *kit.Case) error {
 			trees[i] = t
 			err = a.Renderer().Render(&b, docs[i], t)
 		case 'k':
-			t := a.Parser().Parse(text.NewReader(docs[i]), parser.WithContext(parser.NewContext()))
-			err = a.Renderer().Render(&b, docs[i], t)
+			src := oneShot(i)
+			t := a.Parser().Parse(text.NewReader(src), parser.WithContext(parser.NewContext()))
+			err = a.Renderer().Render(&b, src, t)
 		case 'b':
 			err = cfg.Fresh().Convert(docs[i], &b)
 		case 'f', 'g':
@@ -84,7 +107,7 @@ func historyOracle(c *kit.Case) error {
 			if op[0] == 'g' {
 				k = 40
 			}
-			_ = a.Convert(docs[i], bufio.NewWriterSize(&failAfter{left: k}, 16))
+			_ = a.Convert(oneShot(i), bufio.NewWriterSize(&failAfter{left: k}, 16))
 			continue
 		default:
 			continue
@@ -129,6 +152,12 @@ var pairs = [][2]string{
 	{"日本\n語 \\ x\n", "語\n語\n"},
 	{"www.a.bc http://x.yz a@b.cd\n", "www.a.bc\n"},
 	{"> - a\n>\n>   b\n", "- a\n- b\n\n- c\n"},
+	{"> `foo\r\n> bar`\r\n", "`a\r\nb`\r\n\r\n- `c\r\n  d`\r\n"},
+	{"> `foo\n> bar` x\n", "- `a\n  b`\n"},
+	{"# t {title=\"say \\\"hi\\\" to everybody\"}\n", "# u {title=\"C:\\\\temp\\\\new folder (2)\" data-n=12}\n"},
+	{"# Install {#install tabindex=3}\n", "## v {.c hidden=true data-k=\"a\\\"b\"}\n"},
+	{"\"foo\n", "foo\" bar\n"},
+	{"'tis \"a\n\nb\" c'\n", "x\" y' z\n"},
 }
 
 // role-swap documents: the same fragment appears in two syntactic roles in two
@@ -182,6 +211,10 @@ func TestHistory(t *testing.T) {
 			p := rapid.SampledFrom(pairs).Draw(t, "pairsel")
 			c.B("d0", []byte(p[0])).B("d1", []byte(p[1]))
 			paired = true
+			if strings.Contains(p[0], "{") && rapid.IntRange(0, 3).Draw(t, "forceattr") != 0 {
+				cfg.Attr = true
+				c.Config = cfg.String()
+			}
 		} else {
 			c.B("d0", drawDoc(t, "d0")).B("d1", drawDoc(t, "d1"))
 		}
@@ -200,6 +233,10 @@ func TestHistory(t *testing.T) {
 			ops = append(ops, fmt.Sprintf("%s%d", op, i))
 		}
 		c.S("ops", strings.Join(ops, " "))
+		if rapid.IntRange(0, 3).Draw(t, "recycle") == 0 {
+			c.I("recycle", 1)
+			kit.R.Class("recycled-source-buffer")
+		}
 		if kit.Check(t, c) {
 			kit.R.Class("histories")
 			// non-triviality
